@@ -4,6 +4,7 @@ R9.1 maximal munch: strict comparison, forward rule order, match taken at the it
 R9.2 applicability table of a rule in a start state (4 rows)
 R9.3 tiling: the offset advances only by the longest match (> 0); lexeme = (token of the chosen rule, start offset, longest);
      every error leaves the loop
+R9.5 the regex handed to the engine for a rule is `\\A(?:` user text `)`: anchored at the current position and grouped
 R9.4 start-state stack operations per StartStateOperation variant
 """
 from mirlib import *
@@ -268,7 +269,96 @@ def is_option_discr(c):
     return False
 
 
+def fmt_template(opaque):
+    """decode the compiler's format template (a byte string: length-prefixed literal pieces, bytes >= 0x80 mark an argument)
+    into a list of str pieces and the marker ARG; None if it is not of that form"""
+    import ast
+    try:
+        data = ast.literal_eval(opaque)
+    except Exception:
+        return None
+    if not isinstance(data, (bytes, bytearray)):
+        return None
+    out, i = [], 0
+    while i < len(data):
+        x = data[i]
+        if x == 0:
+            return out if i == len(data) - 1 else None
+        if x >= 0x80:
+            out.append(ARG)
+            i += 1
+            continue
+        lit = data[i + 1:i + 1 + x]
+        if len(lit) != x:
+            return None
+        try:
+            out.append(lit.decode('utf-8'))
+        except UnicodeDecodeError:
+            return None
+        i += 1 + x
+    return None
+
+
+ARG = object()
+
+
+def r95(facts, res):
+    """The regular expression handed to the regex engine for a rule is the user's text, GROUPED, behind an anchor at the current
+    position: `\\A(?:` text `)`.  Without the group a top-level alternative `x|y` anchors only `x`; `y` then matches anywhere
+    later in the remaining input and its end is taken as the length of a match at the current position."""
+    R = 'R9.5'
+    bs = [x for x in facts.lib_bodies(['lrlex']) if strip_generics(x.path) == 'lrlex::lexer::Rule::new']
+    if len(bs) != 1:
+        res.lost(R, 'lrlex::lexer::Rule::new not found')
+        return
+    b = bs[0]
+    rb = [bb for bb, t in b.calls_named('new') if 'RegexBuilder' in (cpath(t) or '')]
+    if len(rb) != 1:
+        res.lost(R, 'expected one RegexBuilder::new in Rule::new, found %d' % len(rb))
+        return
+    templates = []
+    for bi, blk in enumerate(b.blocks):
+        for st in blk['stmts']:
+            if st['k'] == 'assign' and 'use' in st['rv'] and 'const' in st['rv']['use'] and 'opaque' in st['rv']['use']['const'] \
+                    and st['rv']['use']['const'].get('ty', '').startswith('&[u8;') and b.dominates(bi, rb[0]):
+                t = fmt_template(st['rv']['use']['const']['opaque'])
+                if t is not None and ARG in t:
+                    templates.append((bi, t))
+    if len(templates) != 1:
+        res.lost(R, 'cannot read the format template from which Rule::new builds the regex (found %d candidates)' % len(templates))
+        return
+    bi, t = templates[0]
+    if t.count(ARG) != 1:
+        res.bad(R, 'regex-template', loc_of(b, bi), 'the regex template has %d holes' % t.count(ARG))
+        return
+    k = t.index(ARG)
+    pre = ''.join(x for x in t[:k] if x is not ARG)
+    post = ''.join(x for x in t[k + 1:] if x is not ARG)
+    shown = pre + '{}' + post
+    # unclosed groups in the prefix
+    depth = 0
+    i = 0
+    while i < len(pre):
+        if pre[i] == '\\':
+            i += 2
+            continue
+        if pre[i] == '(':
+            depth += 1
+        elif pre[i] == ')':
+            depth -= 1
+        i += 1
+    anchored = '\\A' in pre
+    if not anchored:
+        res.bad(R, 'regex-template', loc_of(b, bi), 'the rule regex `%s` is not anchored at the current position (\\A)' % shown)
+    elif depth < 1 or not post.startswith(')'):
+        res.bad(R, 'regex-template', loc_of(b, bi), 'the rule regex is built as `%s`: the user\'s text is not enclosed in a group, so the anchor binds only to its first '
+                'top-level alternative; the others match anywhere later in the input' % shown)
+    else:
+        res.ok(R, 'regex-template', loc_of(b, bi), 'the rule regex is `%s`: anchored, user text grouped' % shown)
+
+
 def run(facts, res):
+    r95(facts, res)
     ctx = r91(facts, res)
     r92(facts, res)
     if ctx:
